@@ -82,17 +82,18 @@ Section Term.
     destruct (assoc (d_dig d0) blobs) as [b0|] eqn:Eb; [|discriminate].
     pose proof (unwalked_walk (d_dig d0) walked blobs b0 Eb Ewk) as Hwalk.
     pose proof (unwalked_mono (d_dig d0) walked blobs) as Hmono.
-    destruct (mt_index (d_mt d0)) eqn:Ei; simpl.
-    - destruct (j_ok_i (blob_view E (b_data b0))).
-      + apply IH. unfold pot.
-        pose proof (requeue_len subjects (d_dig d0) (rev rest ++ j_manifests (blob_view E (b_data b0)))) as Hr.
-        rewrite app_length in Hr. lia.
+    destruct (mt_index (d_mt d0) || mt_image (d_mt d0)) eqn:Ei; cbn [orb andb negb].
+    - destruct (negb (j_ok_i (blob_view E (b_data b0))) && negb (j_ok_m (blob_view E (b_data b0)))).
       + apply IH. unfold pot. lia.
-    - destruct (mt_image (d_mt d0)) eqn:Em; simpl.
-      + destruct (j_ok_m (blob_view E (b_data b0))).
-        * apply IH. unfold pot. pose proof (requeue_len subjects (d_dig d0) (rev rest)) as Hr. lia.
-        * apply IH. unfold pot. lia.
-      + apply IH. unfold pot. pose proof (requeue_len subjects (d_dig d0) (rev rest)) as Hr. lia.
+      + apply IH. unfold pot.
+        pose proof (requeue_len subjects (d_dig d0)
+                      (rev rest ++ (if j_ok_i (blob_view E (b_data b0)) then j_manifests (blob_view E (b_data b0)) else []))) as Hr.
+        rewrite app_length in Hr.
+        assert (Hk : (List.length (if j_ok_i (blob_view E (b_data b0)) then j_manifests (blob_view E (b_data b0)) else [])
+                      <= List.length (j_manifests (blob_view E (b_data b0))))%nat)
+          by (destruct (j_ok_i (blob_view E (b_data b0))); simpl; lia).
+        lia.
+    - apply IH. unfold pot. pose proof (requeue_len subjects (d_dig d0) (rev rest)) as Hr. lia.
   Qed.
 
   (* ---- the fuel of a collection ------------------------------------------------------------------------------------ *)
